@@ -9,7 +9,7 @@ from ..values import dec, enc, CODES8, err
 
 RULE = 'C12: tuples (1-6 items, flat or nested in arrays) of logicals, integers, floats and blanks; IF/IFS/SWITCH lists; every value class for the predicates; every error code in every tested position'
 ASSUMPTIONS = ['truth value: logicals as themselves, numbers true iff non-zero, blank false (text items are not in the quantifier and not generated for AND/OR/XOR/NOT)',
-               'SWITCH target and cases are of one kind (all integers or all text), so that "equal" needs no cross-type rule',
+               'SWITCH target and cases are of one kind (all numbers or all text), so that "equal" needs no cross-type rule',
                'dates and arrays are not given to the five classifying predicates (the statement names numbers, text, logicals, blanks and errors only)',
                'ISEVEN/ISODD are compared by truthiness (1/0 is accepted for TRUE/FALSE) on finite numbers below 2^53']
 
@@ -187,6 +187,9 @@ def cond_case(draw):
     n = draw(st.integers(1, 4))
     textual = draw(st.booleans())
     pool = ['ka', 'kb', 'kc', 'kd', 'ke', 'Kf'] if textual else [1, 2, 3, 4, 5, 60]
+    if not textual and draw(st.integers(0, 3)) == 0:
+        # numbers that differ, though by less than one part in 10^9: "equal" means equal
+        pool = [2000000000, 2000000001, 2000000002.0, 2000000001.5, 1, 1.0000000001, 1.0000000002, 0.30000000000000004, 0.3]
     cases = [draw(st.sampled_from(pool)) for _ in range(n)]
     target = draw(st.sampled_from(pool))
     results = ['res%d' % i if draw(st.booleans()) else 100 + i for i in range(n)]
@@ -346,6 +349,21 @@ def check_predicates(case):
 
 def check_parity(case):
     x = case['x']
+    if case.get('text'):
+        # the number written as text: whatever the two functions make of text, they make the same of it (both refuse it with one error value, or both
+        # read the number and answer complementarily)
+        t = repr(x) if isinstance(x, float) else str(x)
+        env = Env(vars={'v_x': t})
+        X = 'v_x' if case['var'] else '"%s"' % t
+        re_, ro = env.parse('ISEVEN(%s)' % X), env.parse('ISODD(%s)' % X)
+        if re_['error'] is not None or ro['error'] is not None:
+            if re_['error'] != ro['error']:
+                raise Violation('ISEVEN(%s) -> %r but ISODD(%s) -> %r for the text %r' % (X, re_, X, ro, t), re_['error'] or enc(re_['result']), ro['error'] or enc(ro['result']))
+            return
+        ge, go = re_['result'], ro['result']
+        if not all(isinstance(b, bool) for b in (ge, go)) or ge == go:
+            raise Violation('ISEVEN(%s) = %r and ISODD(%s) = %r for the text %r: not complementary' % (X, ge, X, go, t), enc([ge, go]), None)
+        return
     env = Env(vars={'v_x': x})
     X = 'v_x' if case['var'] else lit(x)
     r = env.parse('{ISEVEN(%s),ISODD(%s)}' % (X, X))
@@ -369,7 +387,7 @@ LAWS = [
     Law('conditionals', check_cond, strategy=cond_case(), key=cond_key, quick=4000, thorough=150000, shards=(8, 16),
         classes=cond_classes, required=('IF', 'IFS', 'SWITCH', 'error-in-condition', 'SWITCH-default-equals-target', 'error-in-value-slot'),
         nontrivial=lambda c: c['kind'] != 'IF' or cond_key(c) == 'error-in-condition',
-        rule='IF(cond, a, b); IFS with 1-5 (condition, value) pairs; SWITCH(target, 1-4 (case, result) pairs [, default]) with targets/cases of one kind and a default that may equal the target; '
+        rule='IF(cond, a, b); IFS with 1-5 (condition, value) pairs; SWITCH(target, 1-4 (case, result) pairs [, default]) with targets/cases of one kind (text, small integers with their float twins, or numbers that differ by less than one part in 10^9) and a default that may equal the target; '
              'an error in the tested position (IF condition, an IFS condition at or before the first true one, the SWITCH target) yields that error; an error value sitting in a branch/value/result slot is the outcome exactly when that slot is the selected one'),
     Law('predicates', check_predicates, strategy=st.fixed_dictionaries({'v': pred_value, 'how': st.sampled_from(['var', 'lit', 'cell'])}), quick=4000, thorough=150000, shards=(4, 16),
         classes=lambda c: (c['v'][0], 'how:' + c['how']), required=('number', 'text', 'logical', 'blank', 'error', 'other', 'how:cell', 'how:lit'),
@@ -377,9 +395,9 @@ LAWS = [
         rule='a value of each class (number, text incl. "", "12", "TRUE"; logical; blank; each of the 8 error codes) as variable, literal/expression or listener-served cell: '
              'ISNUMBER/ISTEXT/ISLOGICAL/ISBLANK/ISERROR true exactly on their class (hence mutually exclusive), ISNONTEXT = not ISTEXT, ISERROR = ISERR or ISNA, ISNA only on #N/A'),
     Law('parity', check_parity, quick=2000, thorough=100000, shards=(4, 8),
-        strategy=st.fixed_dictionaries({'x': st.one_of(st.integers(-2 ** 53, 2 ** 53), st.integers(-2 ** 70, 2 ** 70), st.integers(0, 40).flatmap(lambda k: st.sampled_from([3 ** k, -3 ** k, 2 ** 53 + 2 * k + 1, 2 ** 53 + 2 * k, 10 ** k + 1])), st.integers(-20, 20), st.floats(-1e6, 1e6, allow_nan=False), st.integers(-40, 40).map(lambda k: k / 2.0)), 'var': st.booleans()}),
+        strategy=st.fixed_dictionaries({'x': st.one_of(st.integers(-2 ** 53, 2 ** 53), st.integers(-2 ** 70, 2 ** 70), st.integers(0, 40).flatmap(lambda k: st.sampled_from([3 ** k, -3 ** k, 2 ** 53 + 2 * k + 1, 2 ** 53 + 2 * k, 10 ** k + 1])), st.integers(-20, 20), st.floats(-1e6, 1e6, allow_nan=False), st.integers(-40, 40).map(lambda k: k / 2.0)), 'var': st.booleans(), 'text': st.integers(0, 5).map(lambda k: k == 0)}),
         nontrivial=lambda c: c['x'] < 0 or isinstance(c['x'], float),
-        rule='finite numbers of either sign - integers up to 2^70 in magnitude (exact Python integers, as 3^40 evaluates to), floats and halves up to 1e6: ISEVEN/ISODD report the parity of the integer part and are complementary'),
+        rule='finite numbers of either sign - integers up to 2^70 in magnitude (exact Python integers, as 3^40 evaluates to), floats and halves up to 1e6: ISEVEN/ISODD report the parity of the integer part and are complementary; one case in six hands the number over as text, which both functions must treat alike'),
 ]
 
 LEVEL_TEXT = 'Hypothesis exploration of the truth-functional laws over generated tuples with regrouping into nested arrays, of IF/IFS/SWITCH selection incl. the default-equals-target corner, of error values in every tested position, and of the predicate x value-class matrix through variables, literals and cells.'
